@@ -46,7 +46,12 @@ func (d *Pegnetd) GradeS(ctx context.Context, block *factom.EBlock) (graderStake
 		}
 		// allow only top 100 stake holders submit prices
 		stakerRCD := extids[1]
-		if d.Pegnet.IsIncludedTopPEGAddress(stakerRCD) {
+		isTop, err := d.Pegnet.IsIncludedTopPEGAddress(stakerRCD)
+		if err != nil {
+			// a failed lookup must not silently drop the record from grading
+			return nil, err
+		}
+		if isTop {
 			// ignore bad opr errors
 			err = g.AddSPR(entry.Hash[:], extids, entry.Content)
 			if err != nil {
